@@ -42,6 +42,11 @@ CHECKS = {
          "All well-formed histories of <= 5 (thorough 6) operations over {declare int/const/qubit x, use x, assign x, gate-call x, open if/else/while/for x/case/default/gate(x)/def(x), close} for three two-name pools (user names; pi and the library gate h after include; the built-in U) are rendered as programs; the graph is walked in source order and every symbol reference is compared with the reference scope machine: resolved iff visible, same symbol iff same declaration, symbol name equals the identifier, unresolved uses marked MissingBinding, typed Undefined and reported exactly once on the identifier, duplicates marked AlreadyBound and reported exactly once with the name, scope stack back at depth 1. Reports reference states, transitions and traces; every trace runs on the implementation.",
          "Readings where the statement is silent are listed in the evidence assumptions. Hook oq3_verif for the depth.",
          "DESIGN.md section 7, C07"),
+ "C09": ("exploration",
+         "exhaustive enumeration of a declaration-form x type x width x scope table; recorded symbol types compared with the declared ones computed by the harness",
+         "Plain, const, input, output, loop-variable and subroutine-parameter declarations of 12 scalar type spellings with every width of the tier's set (thorough: 1..1024 and 2^k, 2^k+-1 up to 2^32-1), literal and through const identifiers of 6 integer types, in 8 scope kinds; qubit registers; out-of-range, negative, float, boolean, non-constant, input, loop-variable and undeclared designators (a diagnostic is required and the width must not be another number); every gate signature 0-4 x 1-4 with parameter and qubit types and the gates() listing with and without the standard library; every subroutine signature 0-4 parameters x 13 return types with DefStmt::return_type.",
+         "Programs on which the analyser panics are skipped and counted (C03). Const-ness of a recorded return type is not compared. Three defects (truncated width, silent non-constant width, const of the literal's own type as width) were repaired by fix: commits.",
+         "DESIGN.md section 7, C09"),
  "C10": ("exploration",
          "exhaustive enumeration of structured literal spelling sets; value in the graph and in the AST accessors compared with the value computed by the harness's own spelling generator",
          "Every integer 0..4096, every 2^k and 2^k+-1 (k <= 128) and 64 digit patterns in 4 radices, both prefix cases, both hex digit cases and all legal underscore placements; 5 mantissas x 8 fractions x 11 exponents of float spellings with underscores and leading-dot forms; all bit strings up to 12 bits and structured ones up to 256 bits, both quote flavours, with underscores; every unit (dt ns us µs ms s) and `im` glued, spaced and tabbed; booleans; each as expression statement, under unary minus (glued/spaced) and as initializer. The graph literal (class, value, sign, unit, bit count as width) and IntNumber/FloatNumber/BitString::value must equal the expected value.",
@@ -57,6 +62,11 @@ CHECKS = {
          "On every input of the C01 text-level spaces (with non-ASCII lexemes) every diagnostic of both entry points must have start <= end <= len on character boundaries, and a tree containing an ERROR node or token must come with at least one diagnostic.",
          "Syntax diagnostics only in this round; semantic diagnostics' ranges are added with the semantic checks.",
          "DESIGN.md section 7, C12"),
+ "C13": ("exploration",
+         "exhaustive rule x site x arity decision table and all pairs of rule representatives; exact multiset of rule diagnostics per site",
+         "Every gate of the standard library, U and 20 user gates called with 0..5 parameters x 1..5 operands unmodified, inv@ and pow(2)@ (thorough: all 30 x 3 arity combinations per gate); calls of non-gates and undeclared names; 14 non-quantum symbols as gate / reset / measure / barrier operand, plain and indexed; 12 binary operators with a qubit, register or hardware qubit on either or both sides; subroutines with 0-4 parameters called with 0..5 arguments in 3 positions; assignment to const and non-const symbols; qubit, gate and subroutine declarations in 9 scope kinds; return at global scope and in subroutines; delay designators; and all 256 ordered pairs of 16 rule representatives. On each site the multiset of rule diagnostics must be exactly the predicted one, located inside the site, with no rule diagnostic elsewhere.",
+         "ctrl/negctrl arity is not judged. Sites are type-correct otherwise, so IncompatibleTypesError can only come from the operand/operator rules.",
+         "DESIGN.md section 7, C13"),
  "C14": ("exploration",
          "bounded exhaustive enumeration of input strings over critical alphabets, invariant oracle on every one",
          "Every string of at most 5 (thorough: 6-7) symbols over five 14-symbol alphabets of lexically critical atoms is lexed by the real lexer and by LexedStr; on each the partition invariants (non-zero lengths, character boundaries, suffix offsets, lengths summing to the input, strictly increasing offsets, slicing never fails, two runs equal) are checked. Exhaustive within the bound, so every lexer shortcut reachable with <= 7 critical atoms is hit by construction rather than by luck.",
